@@ -1,4 +1,5 @@
 import Cli.NameSpec
+import Cli.Render
 /-!
 # Lemmas relating the scanner `validateName` to the specification `Spec.NameOk` / `Spec.RegexOk`
 -/
@@ -168,5 +169,171 @@ theorem validateName_ok_iff_scan (c : Char) (cs : List Char) :
       | true => simp [validateName, accepted, hl, hsc]
       | false =>
         cases hk : isKeyword (normalize (c :: cs)) <;> simp [validateName, accepted, hl, hsc, hk]
+
+theorem getLast?_cons_getLastD (a : Char) (l : List Char) : (a :: l).getLast? = some (l.getLastD a) := by
+  induction l generalizing a with
+  | nil => rfl
+  | cons b l ih => rw [List.getLast?_cons_cons, ih b, List.getLastD_cons]
+
+/-! ## derived names -/
+
+/-- Characters that may occur in the derived names. -/
+def safeCh (c : Char) : Prop := isLower c = true ∨ isUpperAZ c = true ∨ isDigit c = true ∨ isSep c = true
+
+theorem safeCh_not_brace {x : List Char} (h : ∀ c ∈ x, safeCh c) : (∀ c ∈ x, c ≠ '{') ∧ '}' ∉ x := by
+  constructor
+  · intro c hc hcb
+    subst hcb
+    rcases h _ hc with h | h | h | h <;> revert h <;> decide
+  · intro hc
+    rcases h _ hc with h | h | h | h <;> revert h <;> decide
+
+theorem upper_range : ∀ n, n < 123 → 97 ≤ n →
+    (65 ≤ (Char.ofNat (n - 32)).toNat ∧ (Char.ofNat (n - 32)).toNat ≤ 90) := by decide
+
+theorem upperChar_upper {c : Char} (h : isLower c = true) : isUpperAZ (upperChar c) = true := by
+  simp only [upperChar, h, if_true]
+  simp only [isLower, Bool.and_eq_true, decide_eq_true_eq] at h
+  have := upper_range c.toNat (by omega) h.1
+  simp only [isUpperAZ, Bool.and_eq_true, decide_eq_true_eq]
+  exact this
+
+theorem upperChar_safe {c : Char} (h : safeCh c) : safeCh (upperChar c) := by
+  by_cases hl : isLower c = true
+  · exact Or.inr (Or.inl (upperChar_upper hl))
+  · simp only [upperChar, hl, Bool.false_eq_true, if_false]; exact h
+
+theorem lower_ne_dash {c : Char} (h : isLower c = true) : c ≠ '-' := by
+  rintro rfl; revert h; decide
+
+theorem normalize_chars {s : Name} (h : ∀ c ∈ s, isLower c = true ∨ isDigit c = true ∨ isSep c = true) :
+    ∀ x ∈ normalize s, isLower x = true ∨ isUpperAZ x = true ∨ isDigit x = true ∨ x = '_' := by
+  intro x hx
+  simp only [normalize, List.mem_map] at hx
+  obtain ⟨y, hy, rfl⟩ := hx
+  by_cases hd : y = '-'
+  · simp [hd]
+  · rw [if_neg hd]
+    rcases h y hy with h' | h' | h'
+    · exact Or.inl h'
+    · exact Or.inr (Or.inr (Or.inl h'))
+    · rcases (isSep_iff y).1 h' with h'' | h''
+      · exact absurd h'' hd
+      · exact Or.inr (Or.inr (Or.inr h''))
+
+theorem pascalGo_chars (s : Name) (h : ∀ c ∈ s, isLower c = true ∨ isDigit c = true ∨ isSep c = true) :
+    ∀ up, ∀ x ∈ pascalGo up s, isLower x = true ∨ isUpperAZ x = true ∨ isDigit x = true := by
+  induction s with
+  | nil => intro up x hx; simp [pascalGo] at hx
+  | cons c cs ih =>
+    intro up x hx
+    have ih' := ih (fun y hy => h y (List.mem_cons_of_mem _ hy))
+    have hc := h c (List.mem_cons_self ..)
+    simp only [pascalGo] at hx
+    by_cases hs : isSep c = true
+    · rw [if_pos hs] at hx; exact ih' _ x hx
+    · rw [if_neg hs] at hx
+      by_cases hd : isDigit c = true
+      · rw [if_pos hd] at hx
+        rcases List.mem_cons.1 hx with rfl | hx
+        · exact Or.inr (Or.inr hd)
+        · exact ih' _ x hx
+      · rw [if_neg hd] at hx
+        have hl : isLower c = true := by
+          rcases hc with h' | h' | h'
+          · exact h'
+          · exact absurd h' hd
+          · exact absurd h' hs
+        rcases List.mem_cons.1 hx with rfl | hx
+        · cases up
+          · simp only [Bool.false_eq_true, if_false]; exact Or.inl hl
+          · simp only [if_true]; exact Or.inr (Or.inl (upperChar_upper hl))
+        · exact ih' _ x hx
+
+theorem suffix_ok : ('/' ∉ Generated.keypairSuffix ∧ Char.ofNat 0 ∉ Generated.keypairSuffix) := by decide
+
+/-- See `Cli.C20.accepted_names_consistent`. -/
+theorem names_consistent {s : Name} (h : NameOk s) (pubkey : List Char) :
+    let v := TemplateValues.new s pubkey
+    v.name_lowercase = s ∧ CargoPackageName v.name_lowercase ∧ PathComponent s ∧
+    v.name_lowercase_underscore = normalize s ∧ RustIdent v.name_lowercase_underscore ∧
+    keypairFileName Generated.keypairSuffix s = v.name_lowercase_underscore ++ Generated.keypairSuffix ∧
+    PathComponent (keypairFileName Generated.keypairSuffix s) ∧
+    (∃ c cs, v.name_pascalcase = c :: cs ∧ isUpperAZ c = true) ∧
+    (∀ c ∈ v.name_pascalcase, isLower c = true ∨ isUpperAZ c = true ∨ isDigit c = true) ∧
+    (∀ x ∈ [v.name_lowercase, v.name_lowercase_underscore, v.name_uppercase, v.name_pascalcase],
+      (∀ c ∈ x, c ≠ '{') ∧ '}' ∉ x) := by
+  obtain ⟨c, cs, rfl, hl⟩ := h.first
+  have hcs := h.charset
+  have hnorm := normalize_chars hcs
+  have hfirstNorm : normalize (c :: cs) = c :: normalize cs := by
+    simp [normalize, lower_ne_dash hl]
+  have hsafe_s : ∀ x ∈ c :: cs, safeCh x := by
+    intro x hx
+    rcases hcs x hx with h' | h' | h'
+    · exact Or.inl h'
+    · exact Or.inr (Or.inr (Or.inl h'))
+    · exact Or.inr (Or.inr (Or.inr h'))
+  have hsafe_n : ∀ x ∈ normalize (c :: cs), safeCh x := by
+    intro x hx
+    rcases hnorm x hx with h' | h' | h' | h'
+    · exact Or.inl h'
+    · exact Or.inr (Or.inl h')
+    · exact Or.inr (Or.inr (Or.inl h'))
+    · exact Or.inr (Or.inr (Or.inr (by rw [h']; decide)))
+  have hpas := pascalGo_chars (c :: cs) hcs true
+  have hnot : ∀ (d : Char), isLower d = false → isDigit d = false → isSep d = false → d ∉ c :: cs := by
+    intro d h1 h2 h3 hd
+    rcases hcs d hd with h' | h' | h'
+    · rw [h1] at h'; cases h'
+    · rw [h2] at h'; cases h'
+    · rw [h3] at h'; cases h'
+  have hnotN : ∀ (d : Char), isLower d = false → isUpperAZ d = false → isDigit d = false → d ≠ '_' →
+      d ∉ normalize (c :: cs) := by
+    intro d h1 h2 h3 h4 hd
+    rcases hnorm d hd with h' | h' | h' | h'
+    · rw [h1] at h'; cases h'
+    · rw [h2] at h'; cases h'
+    · rw [h3] at h'; cases h'
+    · exact h4 h'
+  refine ⟨rfl, ⟨⟨c, cs, rfl, lower_not_digit hl⟩, ?_⟩, ⟨by simp, ?_, ?_, ?_, ?_⟩, rfl,
+    ⟨⟨c, normalize cs, hfirstNorm, Or.inl hl⟩, hnorm, h.notKeyword⟩, rfl, ⟨?_, ?_, ?_, ?_, ?_⟩, ?_, ?_, ?_⟩
+  · intro x hx
+    rcases hcs x hx with h' | h' | h'
+    · exact Or.inl h'
+    · exact Or.inr (Or.inr (Or.inl h'))
+    · exact Or.inr (Or.inr (Or.inr h'))
+  · exact hnot '/' (by decide) (by decide) (by decide)
+  · exact hnot (Char.ofNat 0) (by decide) (by decide) (by decide)
+  · intro heq; injection heq with h1 _; rw [h1] at hl; revert hl; decide
+  · intro heq; injection heq with h1 _; rw [h1] at hl; revert hl; decide
+  · simp [keypairFileName, hfirstNorm]
+  · simp only [keypairFileName, List.mem_append, not_or]
+    exact ⟨hnotN '/' (by decide) (by decide) (by decide) (by decide), suffix_ok.1⟩
+  · simp only [keypairFileName, List.mem_append, not_or]
+    exact ⟨hnotN (Char.ofNat 0) (by decide) (by decide) (by decide) (by decide), suffix_ok.2⟩
+  · simp only [keypairFileName, hfirstNorm, List.cons_append]
+    intro heq; injection heq with h1 _; rw [h1] at hl; revert hl; decide
+  · simp only [keypairFileName, hfirstNorm, List.cons_append]
+    intro heq; injection heq with h1 _; rw [h1] at hl; revert hl; decide
+  · refine ⟨upperChar c, pascalGo false cs, ?_, upperChar_upper hl⟩
+    simp [TemplateValues.new, pascal, pascalGo, lower_not_sep hl, lower_not_digit hl]
+  · exact hpas
+  · intro x hx
+    simp only [TemplateValues.new, List.mem_cons, List.not_mem_nil, or_false] at hx
+    rcases hx with rfl | rfl | rfl | rfl
+    · exact safeCh_not_brace hsafe_s
+    · exact safeCh_not_brace hsafe_n
+    · apply safeCh_not_brace
+      intro y hy
+      simp only [upper, List.mem_map] at hy
+      obtain ⟨z, hz, rfl⟩ := hy
+      exact upperChar_safe (hsafe_s z hz)
+    · apply safeCh_not_brace
+      intro y hy
+      rcases hpas y hy with h' | h' | h'
+      · exact Or.inl h'
+      · exact Or.inr (Or.inl h')
+      · exact Or.inr (Or.inr (Or.inl h'))
 
 end Cli
